@@ -241,8 +241,9 @@ impl Format for Adt {
                     n
                 });
             }
-            // the path-based loader (root + split-file discovery next to it), 1-deviation classes only
-            if !crate::LIGHT.load(std::sync::atomic::Ordering::Relaxed) {
+            // the path-based loader (root + split-file discovery next to it): the unmodified seed, and the
+            // field / chunk-edit / trailing-data cases of inputs up to 64 KiB
+            if crate::heavy() && input.len() <= (64 << 10) || _seed.bytes == input {
                 let path = _scratch.join("Map_31_32.adt");
                 if std::fs::write(&path, input).is_ok() {
                     if let Some(set) = rec.call("AdtSet::load_from_path", || wow_adt::AdtSet::load_from_path(&path)) {
